@@ -29,11 +29,25 @@ def fault_units(tier):
     return units
 
 
+def boundary_units(tier):
+    """A batch that fills up to within a few bytes of the 750 KB size limit right before a context START and its
+    child's (shorter) START arrive: the space left is scanned in 6-byte steps across both records' sizes."""
+    units = []
+    for x in range(383_540, 383_720, 3):
+        big = lambda: [{"k": "step", "fn": {"sleep": 0.2, "then": {"bytes": x}}}]  # noqa: E731
+        p = {"name": f"batch-boundary[2x{x}]", "seq": [{"k": "par", "cfg": {"cc": "all_completed"}, "branches": [
+            big(), big(), [{"k": "sleep", "d": 0.25}, {"k": "child", "body": [{"k": "step", "fn": {"ret": 1}}]}]]}]}
+        units.append(({"program": p, "cfg": {"env_kinds": []}}, {"total": 0}, 10))
+    return units
+
+
 def run(ctx):
-    units = simcheck.standard_space(ctx.tier) + fault_units(ctx.tier)
+    units = simcheck.standard_space(ctx.tier) + fault_units(ctx.tier) + boundary_units(ctx.tier)
     return simcheck.run_check(ctx, MOD, units, BOUNDS + "; 9 programs (incl. step/child bodies that outlast the batch window, so that "
                               "an asynchronous START travels alone) with every checkpoint call rejected (5xx/429/4xx), with and "
-                              "without API latency, followed by Lambda's retry")
+                              "without API latency, followed by Lambda's retry; 60 programs in which two concurrent ~384 KB step results fill a batch "
+                              "to within -40..+380 bytes (6-byte steps) of the size limit just before a child context START and its "
+                              "first inner START are handed over")
 
 
 def replay(rep):
